@@ -78,6 +78,15 @@ Proof.
         -- inversion H; subst. constructor; simpl; auto.
       * inversion H; subst. constructor; simpl; auto.
     + destruct (y_conf y) as [n|] eqn:Ec.
+      * destruct (p_subok P) eqn:Eo.
+        -- apply andb_true_iff in IH. destruct IH as [I1 I2]. inversion H; subst.
+           constructor; simpl; auto.
+           ++ rewrite incl_b_spec in I1. auto.
+           ++ eapply incl_b_trans; eauto.
+           ++ intros i q Hq. eapply q_ok_mono; eauto.
+        -- inversion H; subst. constructor; simpl; auto.
+      * inversion H; subst. constructor; simpl; auto.
+    + destruct (y_conf y) as [n|] eqn:Ec.
       * apply andb_true_iff in IH. destruct IH as [I1 I2]. inversion H; subst. constructor; simpl; auto.
       * inversion H; subst. constructor; simpl; auto.
     + destruct (y_conf y) as [n|] eqn:Ec.
@@ -138,7 +147,7 @@ Proof.
   - destruct (p_subok P).
     + apply andb_true_iff in C. destruct C as [C C3]. apply andb_true_iff in C. destruct C as [C1 C2].
       rewrite C1, C2. simpl. apply IH. auto.
-    + apply andb_true_iff in C. destruct C as [C1 C2]. rewrite C1. simpl. apply IH. auto.
+    + apply IH. auto.
   - apply IH. auto.
 Qed.
 
